@@ -52,7 +52,12 @@ def call_spec(funcs=tuple(FUNCS), coefs=None, max_deg=5, n_max=6, max_terms=7, s
               num_anneals=gen.pick((1, 4), (2, 3), (3, 2), (7, 2), (0, 1), (-1, 1)),
               durations=gen.pick((1, 2), (2, 2), (3, 2), (10, 1)), seeds=None):
     if coefs is None:
-        coefs = st.one_of(gen.MIXED_COEFS, gen.MIXED_COEFS, gen.FLOAT_COEFS)
+        # one coefficient class per model (a list of strategies): mixing magnitudes inside one model would make
+        # ordinary floating point cancellation look like a wrong value
+        coefs = [gen.MIXED_COEFS, gen.MIXED_COEFS, st.one_of(gen.MIXED_COEFS, gen.FLOAT_COEFS), gen.MIXED_COEFS,
+                 st.one_of(gen.MIXED_COEFS, gen.FLOAT_COEFS), gen.FLOAT_COEFS, gen.TINY_COEFS, gen.HUGE_COEFS]
+    if not isinstance(coefs, (list, tuple)):
+        coefs = [coefs]
     if seeds is None:
         seeds = st.one_of(st.none(), st.just(0), st.integers(0, 2 ** 31 - 1))
 
@@ -64,9 +69,9 @@ def call_spec(funcs=tuple(FUNCS), coefs=None, max_deg=5, n_max=6, max_terms=7, s
         rep = (kind == "dict")
 
         def for_labels(labels):
-            terms = st.integers(0, 9).flatmap(lambda r: gen.poly_strategy(
-                labels, max_terms, max_deg, coefs, repeats=rep, quad=quad, spin=spin,
-                min_terms=0 if r == 0 else 2)).map(lambda t: _dedupe(t, spin))
+            terms = st.tuples(st.integers(0, 9), st.integers(0, len(coefs) - 1)).flatmap(lambda rc: gen.poly_strategy(
+                labels, max_terms, max_deg, coefs[rc[1]], repeats=rep, quad=quad, spin=spin,
+                min_terms=0 if rc[0] == 0 else 2)).map(lambda t: _dedupe(t, spin))
             stale_keys = st.just([])
             if stale and kind in gen.LABELLED_KINDS:
                 stale_keys = st.one_of(
